@@ -154,6 +154,7 @@ class GroupScenario:
         cl.heartbeat_in_completing = p.get("hb_completing", 0)
         world.app_eager = p.get("baseline", "net") == "app"
         world.p_enabled = bool(p.get("p_enabled", True))
+        world.k_mid = bool(p.get("k_mid", False))
         cl.fault_kinds = tuple(p.get("faults", ("drop-before", "drop-after", "lose", "err")))
         cl.fault_apis = set(p.get("fault_apis", GROUP_APIS))
         cl.err_codes = {k: list(v) for k, v in p.get("errs", {}).items()}
@@ -243,7 +244,7 @@ class GroupScenario:
             session_timeout_ms=int(SESSION * 1000), heartbeat_interval_ms=int(HEARTBEAT * 1000),
             rebalance_timeout_ms=int(REBALANCE * 1000), request_timeout_ms=p.get("request_timeout_ms", 4000),
             retry_backoff_ms=50, fetch_max_wait_ms=400, metadata_max_age_ms=p.get("metadata_max_age_ms", 1_000_000),
-            partition_assignment_strategy=strategy, max_poll_interval_ms=300_000,
+            partition_assignment_strategy=strategy, max_poll_interval_ms=spec.get("max_poll_interval_ms", 300_000),
             group_instance_id=spec.get("group_instance_id"))
 
     async def member(self, i, spec):
@@ -296,6 +297,12 @@ class GroupScenario:
             while not self.stop_flag:
                 if spec.get("stop") is not None and world.now() >= spec["stop"]:
                     break
+                idle = spec.get("idle")
+                if idle and idle[0] <= world.now() < idle[1]:
+                    # the application stops polling for a while (longer than max_poll_interval_ms), then polls again
+                    self.rec("idle-begin", i)
+                    await asyncio.sleep(idle[1] - world.now())
+                    self.rec("idle-end", i)
                 if resub and world.now() >= resub[0]:
                     c.subscribe(resub[1], listener=L())
                     self.rec("subscribe", i, tuple(resub[1]))
@@ -451,7 +458,11 @@ class GroupScenario:
             co = c._coordinator
             snap["live"][i] = {"generation": getattr(co, "generation", None), "member_id": getattr(co, "member_id", None),
                                "assignment": frozenset((tp.topic, tp.partition) for tp in c.assignment()),
-                               "subscription": tuple(sorted(c.subscription()))}
+                               "subscription": tuple(sorted(c.subscription())),
+                               # partitions of its subscribed topics this member has heard of (its own cluster metadata)
+                               "known": frozenset((t, pi) for t in c._client.cluster.topics()
+                                                  for pi in (c._client.cluster.partitions_for_topic(t) or ()))}
+        snap["leader"] = g.leader if g else None
         return snap
 
     # ---- wire observers ---------------------------------------------------------------------------------------
